@@ -22,6 +22,7 @@ import (
 	"sort"
 	"strconv"
 	"strings"
+	"time"
 
 	"github.com/iden3/go-iden3-crypto/constants"
 	"github.com/iden3/go-merkletree-sql/v2"
@@ -149,6 +150,9 @@ func hasherSet() []merklize.Hasher {
 		hashers.Mod{P: new(big.Int).Set(constants.Q), SaltBytes: []byte("salt:"), SaltElem: big.NewInt(77), Name: "salted"},
 		hashers.Mod{P: big.NewInt(2147483647), Name: "mod2^31-1"},
 		hashers.Mod{P: p61, SaltBytes: []byte("m61:"), Name: "mod2^61-1"},
+		// Prime() hands out the stored modulus itself: in-place arithmetic on it corrupts the hasher
+		hashers.Mod{P: new(big.Int).Set(constants.Q), SaltBytes: []byte("shr:"), Name: "shared-Q", ShareP: true},
+		hashers.Mod{P: new(big.Int).Set(p61), SaltBytes: []byte("s61:"), Name: "shared-2^61-1", ShareP: true},
 	}
 }
 
@@ -354,6 +358,38 @@ func canonExact(f float64) bool {
 	return exact != nil && r.Cmp(exact) == 0
 }
 
+// packageHashValue: while the package default (merklize.SetHasher) is the hasher the merklizer
+// was created under, the PACKAGE-LEVEL HashValue(datatype, RawValue) must hash like that default.
+func (d *drv) packageHashValue(mz *merklize.Merklizer, def merklize.Hasher, in *Input) {
+	for _, v := range mzrun.MapEntries(mz) {
+		if v.Datatype == "" {
+			continue
+		}
+		p, err := mz.Options().NewPath(v.Parts...)
+		if err != nil {
+			continue
+		}
+		raw, err := mz.RawValue(p)
+		if err != nil {
+			continue
+		}
+		want, _, _ := safeHash(def, v.Datatype, raw)
+		var got *big.Int
+		o := mzrun.Guard(10*time.Second, func() error {
+			x, err := merklize.HashValue(v.Datatype, raw)
+			got = x
+			return err
+		})
+		d.rep.Evaluations++
+		if (want == nil) != (got == nil) || (want != nil && want.Cmp(got) != 0) {
+			c := *in
+			c.Path = v.Parts
+			d.rep.Fail("c10-hashvalue-ignores-default", fmt.Sprintf("package-level HashValue(%s, %v) = %v (%s) under merklize.SetHasher(h), HashValueWithHasher(h, ..) = %v", v.Datatype, raw, got, o.Msg, want), &c)
+			return
+		}
+	}
+}
+
 // lateHasher is what merklize.SetHasher installs AFTER a pinned merklization: its Hash and
 // HashBytes differ from every hasher of hasherSet.
 func lateHasher() merklize.Hasher {
@@ -368,6 +404,13 @@ func (d *drv) docCaseP(stream string, doc []byte, hi int, ctxs map[string]json.R
 	h := d.hs[hi]
 	d.docReported = map[string]bool{}
 	in := &Input{Stream: stream, Doc: json.RawMessage(doc), Hasher: hi, Contexts: ctxs, Pinned: pinned}
+	modulus := new(big.Int).Set(d.hs[hi].Prime())
+	defer func() {
+		if d.hs[hi].Prime().Cmp(modulus) != 0 {
+			d.rep.Fail("c10-hasher-modulus-changed", fmt.Sprintf("the hasher's Prime() was %s before and is %s after the calls on this document (arithmetic in place on the value Prime() returned)", modulus, d.hs[hi].Prime()), in)
+			d.hs[hi].Prime().Set(modulus) // repair the shared modulus for the following documents
+		}
+	}()
 	var mz *merklize.Merklizer
 	var mo mzrun.Outcome
 	if pinned {
@@ -376,6 +419,9 @@ func (d *drv) docCaseP(stream string, doc []byte, hi int, ctxs map[string]json.R
 		merklize.SetHasher(creation)
 		defer merklize.SetHasher(merklize.PoseidonHasher{})
 		mz, mo = mzrun.Merklize(doc, merklize.WithDocumentLoader(d.loader))
+		if mo.Class == "ok" {
+			d.packageHashValue(mz, creation, in)
+		}
 		merklize.SetHasher(lateHasher())
 		if mo.Class == "ok" {
 			if mz.Hasher() != merklize.Hasher(creation) {
@@ -497,6 +543,16 @@ func (d *drv) observe(mz *merklize.Merklizer, h merklize.Hasher, mapKey string, 
 		r.class = "c10-rawvalue-error"
 		return r
 	}
+	// a caller hashing negative Go-typed integers in between must not disturb anything
+	_ = mzrun.Guard(10*time.Second, func() error {
+		if x, err := mz.MkValue(int64(-1 - d.rep.Evaluations%7)); err == nil {
+			_, _ = x.MtEntry()
+		}
+		if x, err := merklize.NewValue(h, int64(-3)); err == nil {
+			_, _ = x.MtEntry()
+		}
+		return nil
+	})
 	r.hv, r.hvErr, r.hvPanic = safeHash(h, r.dt, r.raw)
 	r.agree = r.hv != nil && r.hv.Cmp(leaf) == 0
 	r.leafSnap = leaf.String()
